@@ -89,6 +89,17 @@ pub trait Header: Sized {
 
   #[cfg(all(feature = "memmap", not(target_family = "wasm")))]
   fn load_allocated(&self) -> u32;
+
+  /// Finishes removals from the free list that were interrupted by a crash: a segment whose size
+  /// field is zero has been claimed by a process that no longer exists, so nobody would ever unlink it
+  /// and every later traversal would wait for it forever. Called when an existing file is reopened
+  /// writable, i.e. at the same point (and under the same exclusivity assumption) as the zeroing of the
+  /// space above the cursor.
+  ///
+  /// ## Safety
+  /// - `base..base + cap` must be the mapped memory this header belongs to.
+  #[cfg(all(feature = "memmap", not(target_family = "wasm")))]
+  unsafe fn recover_freelist(&self, base: *mut u8, cap: u32);
 }
 
 /// Sealed trait to prevent users from implementing the trait, so allowing the clippy warning here is okay.
